@@ -8,8 +8,9 @@ R-ESC   the single escape table literal of EscapeSequence is split into
         comparing the byte and returning the letter, unescapeChar the
         converse; TextFormatter::writeChar writes '\\' + letter for a hit,
         the literal \\u0000 for NUL and the byte itself otherwise.
-Surrogate recombination, the UTF-8 encoder and hex decoding are arithmetic
-over code points and are NOT decided (see DESIGN, C17).
+R-HEX / R-UTF8 / R-UESCAPE (rules/unicode.py): hex digits, the UTF-8 encoder
+and surrogate recombination, decided for every code unit and every pair by
+partitioned affine abstract interpretation.
 """
 from lib import prog as P
 
@@ -18,6 +19,8 @@ PARSE_EXTRA = {ord('/'): ord('/'), ord("'"): ord("'")}
 
 
 def run(ctx, prog):
+    from rules import unicode
+    unicode.run(ctx, prog)
     rule = "R-ESC"
     fns = prog.q("EscapeSequence::escapeTable")
     ctx.floor(rule, "escapeTable", len(fns), 1)
